@@ -2,6 +2,8 @@ package cdi
 
 // C20 — reconfiguring a cache equals creating a new one, with bounded resources.
 
+import oci "github.com/opencontainers/runtime-spec/specs-go"
+
 func init() { vregister("H_C20_reconfigure", H_C20_reconfigure) }
 
 func vSameStrs(a, b []string) bool { return vEqStrs(a, b) }
@@ -57,6 +59,31 @@ func vCompareCaches(c, f *Cache, tag string) {
 	}
 }
 
+// vFirstQueryAgrees: the FIRST query on c after a directory change (the one that has to notice the change) is of kind q;
+// its answer must be what the reference cache t (scanned just now) answers. The probe is a device of the toggled file.
+func vFirstQueryAgrees(c, t *Cache, q int, m *vFS) bool {
+	probe := "v0/c=" + m.dirs[0].files[0].devs[0]
+	probe2 := "v0/c=" + m.dirs[0].files[1].devs[0]
+	switch q {
+	case 1:
+		got := c.GetDevice(probe) != nil
+		return got == (t.GetDevice(probe) != nil) && (c.GetDevice(probe2) != nil) == (t.GetDevice(probe2) != nil)
+	case 2:
+		return vSameStrs(c.ListVendors(), t.ListVendors()) && vSameStrs(c.ListDevices(), t.ListDevices())
+	case 3:
+		return vSameStrs(c.ListClasses(), t.ListClasses()) && vSameStrs(c.ListDevices(), t.ListDevices())
+	case 4:
+		return len(c.GetVendorSpecs("v0")) == len(t.GetVendorSpecs("v0")) && vSameStrs(c.ListDevices(), t.ListDevices())
+	case 5:
+		un1, err1 := c.InjectDevices(&oci.Spec{}, probe)
+		un2, err2 := t.InjectDevices(&oci.Spec{}, probe)
+		return (err1 == nil) == (err2 == nil) && len(un1) == len(un2) && vSameStrs(c.ListDevices(), t.ListDevices())
+	case 6:
+		return vSameKeysErr(c.GetErrors(), t.GetErrors()) && vSameStrs(c.ListDevices(), t.ListDevices())
+	}
+	return vSameStrs(c.ListDevices(), t.ListDevices())
+}
+
 func H_C20_reconfigure() {
 	vResetWatchers()
 	m := vSmallFS()
@@ -108,6 +135,7 @@ func H_C20_reconfigure() {
 		vreach("shortage")
 		g := newCache(WithSpecDirs(dirs...), WithAutoRefresh(false))
 		vassert("without-watcher-queries-see-current-contents", vSameStrs(c.ListDevices(), g.ListDevices()))
+		q := nondetChoice("query", 6) // which query is the first one after each later change: every query must notice it
 		// the shortage ends; the directories keep changing: every query is still answered from the current contents
 		// (a cache without a working event reader must not start trusting a watcher nobody reads)
 		vShortage = false
@@ -116,7 +144,7 @@ func H_C20_reconfigure() {
 				vToggleFile(m.dirs[0], m.dirs[0].files[round%2])
 			}
 			truth := newCache(WithSpecDirs(dirs...), WithAutoRefresh(false))
-			vassert("after-the-shortage-queries-still-see-current-contents", vSameStrs(c.ListDevices(), truth.ListDevices()))
+			vassert("after-the-shortage-queries-still-see-current-contents", vFirstQueryAgrees(c, truth, q, m))
 			vassert("every-watcher-has-a-reader-goroutine", vspawned() >= vMadeWatchers)
 		}
 	}
